@@ -20,7 +20,7 @@ fn viol(report: &Report, class: &str, pin: u32, seed: u32, ss: &[u8; 16], cs: &[
     });
 }
 
-fn check_hash(report: &Report, pin: u32, seed: u32, ss: &[u8; 16], cs: &[u8; 16]) -> bool {
+pub fn check_hash(report: &Report, pin: u32, seed: u32, ss: &[u8; 16], cs: &[u8; 16]) -> bool {
     let want = pin_hash(pin, seed, ss, cs);
     match catch(|| calculate_hash(pin, seed, ss, cs)) {
         Ok(got) => {
